@@ -384,7 +384,7 @@ def run(ctx, report, status):
         sc = gen_scenario(ctx.rng, force=f)
         sc0 = sc0 or sc
         check_scenario(ctx, report, sc, facts, "fixed")
-    for _ in range(ctx.n(6, 80)):
+    for _ in range(ctx.n(20, 400)):
         check_scenario(ctx, report, gen_scenario(ctx.rng), facts, "rnd")
     # the model of check_input_section
     grid = [[[-2] * sc0["cols"] for _ in range(sc0["rows"])], [[1] * sc0["cols"] for _ in range(sc0["rows"])]]
@@ -429,4 +429,9 @@ def replay(ctx, report, path):
     for d in report.disagreements:
         print("disagreement:", d["what"], json.dumps(d["impl"])[:400])
     print("replayed: failures=%d disagreements=%d" % (len(report.failures), len(report.disagreements)))
+    # a replay file written by a run names the clause that failed: the verdict is about that clause (the same input
+    # may also exhibit a known finding, which is printed above but is not what is being replayed)
+    wanted = data.get("clause") if isinstance(data, dict) and "input" in data else None
+    if wanted:
+        return 1 if any(fl["clause"] == wanted for fl in report.failures) else 0
     return 1 if report.failures else 0
